@@ -902,4 +902,142 @@ Proof.
       * intros e -> Hne. destruct e; try reflexivity. contradiction.
 Qed.
 
+
+(* ================================================================== any further requests
+   The never-paused part and the idle end do not depend on what else arrives: whatever requests (abort, stop, halt,
+   further pauses and suspensions), status completions and main-thread calls other than a new RE(...)/resume() follow
+   the failed request, the engine does not become paused, and once the task has finished it is idle with every run
+   stopped and marked interrupted. *)
+Definition moved_to (x : rstate) : Prop := x = Pausing \/ x = Aborting \/ x = Stopping \/ x = Halting \/ x = Suspending.
+Definition evstep (s s' : st) : Prop :=
+  pc s' = pc s /\ cache s' = cache s /\ (must_cancel s = true -> must_cancel s' = true) /\
+  (state s' = state s \/ (allowed (state s) (state s') = true /\ moved_to (state s'))).
+Definition other_ev (e : event) : bool :=
+  match e with EvTask | EvMain (ACall _) | EvMain AResume => false | _ => true end.
+
+Lemma evstep_refl (s : st) : evstep s s.
+Proof. unfold evstep. auto. Qed.
+Lemma evstep_same (s s' : st) :
+  pc s' = pc s -> cache s' = cache s -> must_cancel s' = must_cancel s -> state s' = state s -> evstep s s'.
+Proof. unfold evstep. intros -> -> -> ->. auto. Qed.
+
+Lemma set_state_obs (s : st) x s' o : set_state s x = Some (s', o) -> s' = set_state_raw s x /\ o = [OState (state s) x] /\ allowed (state s) x = true.
+Proof. unfold set_state. destruct (allowed (state s) x); intros H; inv H. auto. Qed.
+
+Lemma req_result_keep (s : st) e s' o :
+  req_result s e = (s', o) ->
+  pc s' = pc s /\ cache s' = cache s /\ must_cancel s' = must_cancel s /\ state s' = state s /\ Forall np o.
+Proof. unfold req_result. intros H; inv H. destruct (mreq s); simp_st; repeat split; repeat constructor. Qed.
+
+Lemma cancel_task_keep (s : st) :
+  pc (cancel_task s) = pc s /\ cache (cancel_task s) = cache s /\ state (cancel_task s) = state s /\
+  (must_cancel s = true -> must_cancel (cancel_task s) = true).
+Proof. unfold cancel_task. destruct (pc s) eqn:E; simp_st; rewrite ?E; repeat split; auto. Qed.
+
+Lemma step_other (s : st) e s' o :
+  other_ev e = true -> step presume plan_of dev s e = (s', o) -> evstep s s' /\ Forall np o.
+Proof.
+  intros He H. destruct e as [a|a| | |defer|rs| | |sid pre post|sid|sid ok| |]; try discriminate He; cbn [step] in H.
+  - destruct a; try discriminate He; inv H; (split; [apply evstep_same; reflexivity | apply Forall_nil]).
+  - inv H. split; [apply evstep_same; reflexivity | repeat constructor].
+  - inv H. split; [apply evstep_same; reflexivity | apply Forall_nil].
+  - (* pause request *)
+    destruct (request_pause s defer) as [[s1 e1] o1] eqn:E1. destruct (req_result s1 e1) as [s2 o2] eqn:E2. inv H.
+    pose proof (request_pause_rpq _ _ _ _ _ _ _ E1) as Q1. destruct (req_result_keep _ _ _ _ E2) as (K1 & K2 & K3 & K4 & K5).
+    split; [|apply Forall_app; split; [eapply Forall_imp'; [exact rpq_np | exact Q1] | exact K5]].
+    destruct (RE_Inv.request_pause_spec _ _ _ _ _ _ _ E1) as [[[Hs Hc] _]|Hs].
+    + unfold RE_Inv.same in Hs. destruct Hs as (X1 & X2 & X3 & _). unfold evstep. rewrite K1, K2, K3, K4, X1, X2, X3, Hc. auto.
+    + unfold RE_Inv.pause_acc in Hs. destruct Hs as (Y1 & Y2 & Y3 & _ & _ & _ & _ & _ & Y9 & _ & _ & _ & Y13).
+      unfold evstep. rewrite K1, K2, K3, K4, Y2, Y3, Y9, Y1. split; [reflexivity|]. split; [reflexivity|]. split.
+      * intros Hm. destruct Y13 as [(_ & _ & Y)|(_ & _ & Y)]; rewrite Y; [destruct (pc s); auto | exact Hm].
+      * right. split; [exact allowed_running_pausing | left; reflexivity].
+  - (* abort *)
+    destruct (rstate_eqb (state s) Idle).
+    + destruct (req_result_keep _ _ _ _ H) as (K1 & K2 & K3 & K4 & K5). split; [|exact K5]. unfold evstep. rewrite K1, K2, K3, K4. auto.
+    + destruct (set_state (set_exit (interrupt s CzAbort) XAbort rs) Aborting) as [[s2 o2]|] eqn:Ea.
+      * apply set_state_obs in Ea. destruct Ea as (-> & -> & Ea). simp_st.
+        match type of H with context [req_result ?sx None] => destruct (req_result sx None) as [s4 o4] eqn:E4 end. inv H.
+        destruct (req_result_keep _ _ _ _ E4) as (K1 & K2 & K3 & K4 & K5). split; [|repeat constructor; exact K5].
+        unfold evstep. rewrite K1, K2, K3, K4. destruct (rstate_eqb (state s) Paused); simp_st.
+        -- repeat split; auto. right. split; [exact Ea | right; left; reflexivity].
+        -- destruct (cancel_task_keep (set_state_raw (set_exit (interrupt s CzAbort) XAbort rs) Aborting)) as (C1 & C2 & C3 & C4).
+           rewrite C1, C2, C3. simp_st. repeat split; auto. right. split; [exact Ea | right; left; reflexivity].
+      * destruct (req_result_keep _ _ _ _ H) as (K1 & K2 & K3 & K4 & K5). split; [|exact K5]. unfold evstep. rewrite K1, K2, K3, K4. simp_st. auto.
+  - (* stop *)
+    destruct (rstate_eqb (state s) Idle).
+    + destruct (req_result_keep _ _ _ _ H) as (K1 & K2 & K3 & K4 & K5). split; [|exact K5]. unfold evstep. rewrite K1, K2, K3, K4. auto.
+    + destruct (set_state (interrupt s CzStop) Stopping) as [[s2 o2]|] eqn:Ea.
+      * apply set_state_obs in Ea. destruct Ea as (-> & -> & Ea). simp_st.
+        match type of H with context [req_result ?sx None] => destruct (req_result sx None) as [s4 o4] eqn:E4 end. inv H.
+        destruct (req_result_keep _ _ _ _ E4) as (K1 & K2 & K3 & K4 & K5). split; [|repeat constructor; exact K5].
+        unfold evstep. rewrite K1, K2, K3, K4. destruct (rstate_eqb (state s) Paused); simp_st.
+        -- repeat split; auto. right. split; [exact Ea | right; right; left; reflexivity].
+        -- destruct (cancel_task_keep (set_state_raw (interrupt s CzStop) Stopping)) as (C1 & C2 & C3 & C4).
+           rewrite C1, C2, C3. simp_st. repeat split; auto. right. split; [exact Ea | right; right; left; reflexivity].
+      * destruct (req_result_keep _ _ _ _ H) as (K1 & K2 & K3 & K4 & K5). split; [|exact K5]. unfold evstep. rewrite K1, K2, K3, K4. simp_st. auto.
+  - (* halt *)
+    destruct (rstate_eqb (state s) Idle).
+    + destruct (req_result_keep _ _ _ _ H) as (K1 & K2 & K3 & K4 & K5). split; [|exact K5]. unfold evstep. rewrite K1, K2, K3, K4. auto.
+    + destruct (set_state (interrupt s CzHalt) Halting) as [[s2 o2]|] eqn:Ea.
+      * apply set_state_obs in Ea. destruct Ea as (-> & -> & Ea). simp_st.
+        match type of H with context [req_result ?sx None] => destruct (req_result sx None) as [s4 o4] eqn:E4 end. inv H.
+        destruct (req_result_keep _ _ _ _ E4) as (K1 & K2 & K3 & K4 & K5). split; [|repeat constructor; exact K5].
+        unfold evstep. rewrite K1, K2, K3, K4. destruct (rstate_eqb (state s) Paused); simp_st.
+        -- repeat split; auto. right. split; [exact Ea | right; right; right; left; reflexivity].
+        -- destruct (cancel_task_keep (set_state_raw (interrupt s CzHalt) Halting)) as (C1 & C2 & C3 & C4).
+           rewrite C1, C2, C3. simp_st. repeat split; auto. right. split; [exact Ea | right; right; right; left; reflexivity].
+      * destruct (req_result_keep _ _ _ _ H) as (K1 & K2 & K3 & K4 & K5). split; [|exact K5]. unfold evstep. rewrite K1, K2, K3, K4. simp_st. auto.
+  - (* suspension request *)
+    cbv zeta in H.
+    set (s0 := set_futs s (if amem sid (futs s) then futs s else aset sid false (futs s))) in *.
+    assert (E0 : evstep s s0) by (apply evstep_same; reflexivity).
+    assert (Hst0 : state s0 = state s) by reflexivity. clearbody s0.
+    match type of H with
+    | context [match ?x with _ => _ end] =>
+        match x with context [resumable] => destruct x as [[s3 e3] o3] eqn:E1 end
+    end.
+    assert (K3 : (pc s3 = pc s0 /\ cache s3 = cache s0 /\ (must_cancel s0 = true -> must_cancel s3 = true) /\
+                  (state s3 = state s0 \/ (allowed (state s0) Aborting = true /\ state s3 = Aborting))) /\ Forall np o3).
+    { destruct (negb (resumable s0)); [|inv E1; split; [auto | apply Forall_nil]].
+      destruct (set_state (set_exc_slot (interrupt s0 CzFailedPause) (Some EFailedPause)) Aborting) as [[s2 o2]|] eqn:Ea.
+      - apply set_state_obs in Ea. destruct Ea as (-> & -> & Ea). simp_st. inv E1. split; [|repeat constructor].
+        destruct (rstate_eqb (state s0) Paused); simp_st.
+        + repeat split; auto.
+        + destruct (cancel_task_keep (set_state_raw (set_exc_slot (interrupt s0 CzFailedPause) (Some EFailedPause)) Aborting)) as (C1 & C2 & C3 & C4).
+          rewrite C1, C2, C3. simp_st. repeat split; auto.
+      - inv E1. split; [|apply Forall_nil]. simp_st. auto. }
+    destruct K3 as [K3 N3].
+    assert (Ktr : forall s5 : st, evstep s3 s5 -> evstep s s5).
+    { intros s5 (A1 & A2 & A3 & A4). destruct K3 as (B1 & B2 & B3 & B4). destruct E0 as (C1 & C2 & C3 & _).
+      unfold evstep. rewrite A1, A2, B1, B2, C1, C2. repeat split; auto.
+      destruct A4 as [A4|[A4 A5]].
+      - rewrite A4. destruct B4 as [B4|[B4 B5]]; [left; congruence | right; split; [rewrite <- Hst0, B5; exact B4 | rewrite B5; right; left; reflexivity]].
+      - destruct B4 as [B4|[B4 B5]].
+        + right. split; [rewrite <- Hst0, <- B4; exact A4 | exact A5].
+        + (* aborting first: nothing is allowed after it but idle *)
+          exfalso. rewrite B5 in A4. destruct A5 as [A5|[A5|[A5|[A5|A5]]]]; rewrite A5 in A4; vm_compute in A4; discriminate A4. }
+    destruct e3.
+    + destruct (req_result s3 (Some e)) as [s4 o4] eqn:E4. destruct (req_result_keep _ _ _ _ E4) as (K1 & K2 & K4 & K5 & K6). inv H.
+      split; [|apply Forall_app; split; assumption]. apply Ktr. unfold evstep. rewrite K1, K2, K4, K5. auto.
+    + destruct (rstate_eqb (state s3) Paused).
+      * match type of H with context [req_result ?sx None] => destruct (req_result sx None) as [s5 o5] eqn:E5 end.
+        destruct (req_result_keep _ _ _ _ E5) as (K1 & K2 & K4 & K5 & K6). inv H.
+        split; [|apply Forall_app; split; assumption]. apply Ktr. unfold evstep. rewrite K1, K2, K4, K5. simp_st. auto.
+      * destruct (set_state s3 Suspending) as [[s5 o5]|] eqn:Ea.
+        -- apply set_state_obs in Ea. destruct Ea as (-> & -> & Ea).
+           match type of H with context [req_result ?sx None] => destruct (req_result sx None) as [s6 o6] eqn:E6 end.
+           destruct (req_result_keep _ _ _ _ E6) as (K1 & K2 & K4 & K5 & K6). inv H.
+           split; [|apply Forall_app; split; [exact N3 | repeat constructor; exact K6]]. apply Ktr.
+           destruct (cancel_task_keep (push_frame (set_state_raw s3 Suspending) (FSingle (mk (CStartSuspender sid pre post)) false))) as (C1 & C2 & C3 & C4).
+           unfold evstep. rewrite K1, K2, K4, K5, C1, C2, C3. simp_st. repeat split; auto.
+           right. split; [exact Ea | right; right; right; right; reflexivity].
+        -- destruct (req_result s3 (Some ETransition)) as [s5 o5] eqn:E5. destruct (req_result_keep _ _ _ _ E5) as (K1 & K2 & K4 & K5 & K6). inv H.
+           split; [|apply Forall_app; split; assumption]. apply Ktr. unfold evstep. rewrite K1, K2, K4, K5. auto.
+  - inv H. split; [apply evstep_same; reflexivity | apply Forall_nil].
+  - destruct (negb ok && negb (pardon (set_statuses s (aset sid (Some ok) (statuses s))))); inv H; (split; [apply evstep_same; reflexivity | apply Forall_nil]).
+  - inv H. split; [apply evstep_same; reflexivity | apply Forall_nil].
+  - inv H. split; [|constructor]. destruct (pc s) as [| | | | |k|r|r] eqn:Epc; try apply evstep_refl. destruct k; try apply evstep_refl.
+    unfold evstep, mark_cached. destruct (get_bundler s run); simp_st; rewrite ?Epc; auto.
+Qed.
+
 End C10.
